@@ -1803,16 +1803,24 @@ def fucomp(info, a):
     e = fucom(info, a)
     e += float_pop()
     return e
+def float_pop2():
+    # the stack popped twice
+    e = []
+    for i in range(6):
+        e.append(ExprAff(float_list[i], float_list[i+2]))
+    e.append(ExprAff(float_st6, ExprInt64(0)))
+    e.append(ExprAff(float_st7, ExprInt64(0)))
+    e.append(ExprAff(float_stack_ptr, ExprOp('-', float_stack_ptr, ExprInt32(2))))
+    return e
+
 def fucompp(info):
-    e = fucomp(info, float_st1)
-    e += float_pop()
+    e = fucom(info, float_st1)
+    e += float_pop2()
     return e
 
 def fcomp(info, a):
     e= fcom(info, a)
     e+=float_pop()
-
-    e += set_float_cs_eip(info)
     return e
 
 def fld(info, a):
@@ -1839,6 +1847,17 @@ def fst(info, a):
     return e
 
 def fstp(info, a):
+    if a == float_st0:
+        # fstp st(0): nothing but the pop
+        e = set_float_cs_eip(info)
+        e += float_pop()
+        return e
+    if a in float_list:
+        # the value stored into st(i) is st(i-1) after the pop
+        e = [ExprAff(float_prev(a), float_st0)]
+        e += set_float_cs_eip(info)
+        e += float_pop(a)
+        return e
     e = fst(info, a)
     e += float_pop(a)
     return e
@@ -1865,7 +1884,6 @@ def fild(info, a):
     #XXXXX
     src = ExprOp('int_%.2d_to_double'%a.get_size(), a)
     e = []
-    e += set_float_cs_eip(info)
     e += fld(info, src)
     return e
 
@@ -1903,29 +1921,31 @@ def fldpi(info):
 
 def fyl2x(info):
     e = []
-    e.append(ExprAff(float_st1, ExprOp('fyl2x', float_st1, float_st0)))
-    e += float_pop()
+    # the result replaces st(1), which the pop makes the new st(0)
+    e.append(ExprAff(float_st0, ExprOp('fyl2x', float_st1, float_st0)))
+    e += float_pop(float_st1)
     return e
 
 def fyl2xp1(info):
     e = []
-    e.append(ExprAff(float_st1, ExprOp('fyl2xp1', float_st1, float_st0)))
-    e += float_pop()
+    # the result replaces st(1), which the pop makes the new st(0)
+    e.append(ExprAff(float_st0, ExprOp('fyl2xp1', float_st1, float_st0)))
+    e += float_pop(float_st1)
     return e
 
 def fsincos(info):
-    e = []
-    e.append(ExprAff(float_st0, ExprOp('sin', float_st0)))
-    e.extend(float_push(ExprOp('cos', float_st0)))
+    # st(0) is replaced by its sine, then its cosine is pushed
+    e = float_push(ExprOp('cos', float_st0))
+    e = [x for x in e if x.dst != float_st1]
+    e.append(ExprAff(float_st1, ExprOp('sin', float_st0)))
     return e
 
 def fdecstp(info):
     return float_push(float_st7)
 
 def fincstp(info):
-    e = float_pop()
-    e.append(ExprAff(float_st7, float_st0))
-    return e
+    # the stack rotates: the old st(0) becomes st(7)
+    return float_pop(src = float_st0)
 
 
 def fadd(info, a, b = None):
@@ -2228,8 +2248,9 @@ def fxch(info, a):
 
 def fpatan(info):
     e= []
-    e.append(ExprAff(float_st1, ExprOp('fatan', float_st1, float_st0)))
-    e += float_pop()
+    # the result replaces st(1), which the pop makes the new st(0)
+    e.append(ExprAff(float_st0, ExprOp('fatan', float_st1, float_st0)))
+    e += float_pop(float_st1)
     return e
 
 def fptan(info):
